@@ -66,15 +66,25 @@ class Deferred:
 
     def __init__(self):
         self.cases, self.handlers = [], []
+        self.budget = {}        # kind -> maximal number of Coq cases (elaborating the literals dominates the run time)
+        self.used = {}
+        self.dropped = 0
 
     def add(self, term, handler):
+        kind = handler[0]
+        if self.used.get(kind, 0) >= self.budget.get(kind, 10 ** 9):
+            self.dropped += 1
+            return
+        self.used[kind] = self.used.get(kind, 0) + 1
         self.cases.append(term)
         self.handlers.append(handler)
 
     def run(self, ctx, name, check):
         if not self.cases:
             return
-        chunk = max(50, -(-len(self.cases) // 3))
+        chunk = min(500, max(50, -(-len(self.cases) // 3)))
+        if self.dropped:
+            ctx.note('%d Coq cases beyond the per-kind budget were not emitted (python oracles ran on them)' % self.dropped)
         bad, errs = ctx.coq_bad_indices(name, IMPORTS, check, self.cases, chunk=chunk)
         for e in errs:
             ctx.violation('correspondence:coq-eval', {'error': e}, False, e[:300])
@@ -192,7 +202,7 @@ def find_rule_size_stream(ctx):
     import copy
     rng = ctx.rng
     cases, meta = [], []
-    for _ in range(ctx.scale(250, 2500)):
+    for _ in range(ctx.scale(250, 800)):
         term, tree = random_ebnf(rng, 0)
         while not hasattr(tree, 'data'):
             term, tree = random_ebnf(rng, 0)
@@ -426,6 +436,8 @@ def rebuild(rules, named=None):
 def correspond(ctx):
     rng = ctx.rng
     DEFER.__init__()
+    if ctx.thorough():
+        DEFER.budget = {'cb': 2400, 'e2e': 700, 'earley': 700, 'cyk': 700, 'cnfg': 200, 'frs': 800}
     wide = 3 if ctx.widen else 1
 
     # (r) fixed regression stream: helper rules must not be shared between `!` and plain rules (F18)
@@ -446,7 +458,7 @@ def correspond(ctx):
 
     # (c) end to end -----------------------------------------------------------------------------------
     sl.LITS[:] = [c for c in sl.LITS if c != 'a'] if f18_present else sl.ALL_LITS[:]
-    ngram = ctx.scale(55, 700) * wide
+    ngram = ctx.scale(55, 350) * wide
     e2e_cases, e2e_meta = [], []
     comp_records = []
     tried = 0
@@ -533,7 +545,7 @@ def correspond(ctx):
     find_rule_size_stream(ctx)
 
     # (a) random rule records against lark's callback objects ---------------------------------------
-    recs = [sl.random_record(rng, True) for _ in range(ctx.scale(170, 2500) * wide)]
+    recs = [sl.random_record(rng, True) for _ in range(ctx.scale(170, 450) * wide)]
     callback_cases(ctx, recs, 'callback-random', True)
 
     # (b) compiled rules of those grammars against the callback objects --------------------------------
@@ -542,7 +554,7 @@ def correspond(ctx):
         uniq[json.dumps(r, sort_keys=True)] = r
     recs = list(uniq.values())
     rng.shuffle(recs)
-    callback_cases(ctx, recs[:ctx.scale(100, 1200)], 'callback-compiled', False)
+    callback_cases(ctx, recs[:ctx.scale(100, 300)], 'callback-compiled', False)
     DEFER.run(ctx, 'c03', 'c03_check')
     # (x) regression F44 (fixed in /repo): CYK's to_cnf lost unit-skip rules depending on the hash seed
     # (UnitSkipRule.__eq__ ignored lhs/rhs); the witness runs in fresh interpreters over hash seeds 0..11
